@@ -67,7 +67,6 @@ from falcon.request import Request
 from falcon.request import RequestOptions
 from falcon.response import Response
 from falcon.response import ResponseOptions
-import falcon.status_codes as status
 from falcon.typing import ReadableIO
 from falcon.util import deprecation
 from falcon.util import misc
@@ -75,21 +74,11 @@ from falcon.util.misc import code_to_http_status
 
 # PERF(vytas): On Python 3.5+ (including cythonized modules),
 # reference via module global is faster than going via self
-_BODILESS_STATUS_CODES = frozenset(
-    [
-        status.HTTP_100,
-        status.HTTP_101,
-        status.HTTP_204,
-        status.HTTP_304,
-    ]
-)
+# NOTE: Compared by code rather than by status line, since the reason
+#   phrase of a status line set by the app is arbitrary.
+_BODILESS_STATUS_CODES = frozenset([100, 101, 204, 304])
 
-_TYPELESS_STATUS_CODES = frozenset(
-    [
-        status.HTTP_204,
-        status.HTTP_304,
-    ]
-)
+_TYPELESS_STATUS_CODES = frozenset([204, 304])
 _BE = TypeVar('_BE', bound=BaseException)
 
 
@@ -466,9 +455,10 @@ class App:
             req_succeeded = False
 
         resp_status: str = code_to_http_status(resp.status)
+        status_code: int = resp.status_code
         default_media_type: Optional[str] = self.resp_options.default_media_type
 
-        if req.method == 'HEAD' or resp_status in _BODILESS_STATUS_CODES:
+        if req.method == 'HEAD' or status_code in _BODILESS_STATUS_CODES:
             body = []
 
             # PERF(vytas): move check for the less common and much faster path
@@ -479,12 +469,12 @@ class App:
             # RFC 2616, as commented in that module's source code. The
             # presence of the Content-Length header is not similarly
             # enforced.
-            if resp_status in _TYPELESS_STATUS_CODES:
+            if status_code in _TYPELESS_STATUS_CODES:
                 default_media_type = None
             elif (
                 length is not None
                 and req.method == 'HEAD'
-                and resp_status not in _BODILESS_STATUS_CODES
+                and status_code not in _BODILESS_STATUS_CODES
                 and 'content-length' not in resp._headers
             ):
                 # NOTE(kgriffs): We really should be returning a Content-Length
